@@ -28,9 +28,10 @@ Seqs == <<
 Idxs == << I(-2), I(-1), I(0), I(1), I(2), I(3), I(4), I(5), I(6), I(255), F(1, 1), F(1, 2), S(<<48>>), B(TRUE), N, A(<<I(0)>>) >>
 
 \* hash keys: integer, float and string keys, some of which print alike
-HKeys == << I(1), F(1, 1), S(<<49>>), I(2), S(<<97>>), S(<<65>>), F(3, 2), S(<<49, 46, 53>>), I(0) >>
+\* (10, "1a" and "10+": numbers whose order by value and by printed form differ, and strings which print between them)
+HKeys == << I(1), F(1, 1), S(<<49>>), I(2), S(<<97>>), S(<<65>>), F(3, 2), S(<<49, 46, 53>>), I(0), I(10), S(<<49, 97>>), S(<<49, 48, 43>>) >>
 \* hashes as sets of indices into HKeys; the value stored under HKeys[i] is I(100 + i)
-HSets == << {}, {1}, {3}, {1, 3}, {1, 2, 3}, {4, 5, 6}, {7, 8}, {1, 2, 3, 4, 5, 6, 7, 8}, {5, 6, 9} >>
+HSets == << {}, {1}, {3}, {1, 3}, {1, 2, 3}, {4, 5, 6}, {7, 8}, {1, 2, 3, 4, 5, 6, 7, 8}, {5, 6, 9}, {4, 10, 11}, {1, 4, 10, 12}, {4, 7, 10, 11, 12} >>
 RECURSIVE SetToSeq(_)
 SetToSeq(s) == IF s = {} THEN <<>> ELSE LET m == CHOOSE x \in s : \A y \in s : x <= y IN <<m>> \o SetToSeq(s \ {m})
 HashOf(hs) == LET ks == SetToSeq(hs) IN H([i \in 1..Len(ks) |-> <<HKeys[ks[i]], I(100 + ks[i])>>])
